@@ -239,7 +239,7 @@ def real_predicate(c, o):
     for tag, s, tgt in (("s1", o["s1"], c["target"]), ("s2", o.get("s2"), None)):
         if s is None:
             continue
-        if s["stop"] == "not-started":
+        if s["stop"] in ("not-started", "skipped"):
             continue
         if s["stop"] == "hang":
             bad.append((tag + ":no-stop-within-watchdog", s))
@@ -264,6 +264,8 @@ def real_predicate(c, o):
             if tag == "s1" and c["lieanc"] == -1 and not (s["anc_on_local"] and s["anc_on_remote"]):
                 bad.append((tag + ":ancestor-not-common", s))
     s1 = o["s1"]
+    if s1["stop"] == "skipped":
+        return bad
     honest = all(p["mode"] in ("ok", "slow") for p in c["peers"]) and c["spliceat"] == 0 and c["lieanc"] == -1
     if honest and s1["started"] and s1["stop"] != "ok":
         bad.append(("s1:honest-peers-but-no-success", s1))
@@ -364,6 +366,43 @@ def run(ctx):
     for ci, (c, o) in enumerate(zip(rcases, robs)):
         for name, det in real_predicate(c, o):
             pred_fail.append((name, "real", ci, 0, det))
+
+    # ---- Finder correspondence on the honest real cases
+    fitems, fidx = [], []
+    for ci, (c, o) in enumerate(zip(rcases, robs)):
+        s1 = o["s1"]
+        if c["lieanc"] != -1 or c["spliceat"] != 0 or s1["stop"] in ("not-started", "skipped", "hang"):
+            continue
+        lc = [1000 + i for i in range(0, c["common"] + 1)] + [2000 + i for i in range(c["common"] + 1, c["locallen"] + 1)]
+        rc = [1000 + i for i in range(0, c["remotelen"] + 1)]
+        if s1["ancestor"] >= 0:
+            ob = s1["ancestor"]
+        elif "Already sync done" in s1["stop"]:
+            ob = -2
+        elif "finder internal" in s1["stop"]:
+            ob = -1
+        else:
+            ob = -3
+        fitems.append("(%s,%s,%d,%s,%s)" % (lN(lc), lN(rc), c["target"], "true" if c["fullscan"] else "false", vf.coq_Z(ob) + "%Z"))
+        fidx.append(ci)
+    if fitems:
+        txt = ["From Coq Require Import ZArith NArith List Bool.", "From Verif Require Import Syncer.Model Syncer.Eval.",
+               "Import ListNotations.", "Open Scope N_scope.",
+               "Definition fcases : list fcase := [%s]." % ";\n".join(fitems),
+               "Definition M := Eval vm_compute in bad_indices finder_case_ok fcases 0.", "Print M."]
+        rc_, out = ctx.coq_eval("finder", "\n".join(txt))
+        flat = " ".join(out.split())
+        m = re.search(r"M = (\[[^\]]*\]|nil)", flat)
+        if rc_ != 0 or not m:
+            corr_broken = corr_broken or ("finder correspondence could not be evaluated", out[-2000:])
+        else:
+            body = m.group(1)
+            badf = [] if body in ("nil", "[]") else [int(x) for x in re.findall(r"\d+", body)]
+            if badf:
+                ci = fidx[badf[0]]
+                corr_broken = corr_broken or ("finder model/implementation differ on %d chain pairs" % len(badf),
+                                              {"case": rcases[ci], "observed": robs[ci]["s1"]})
+    ctx.cov["finder_cases_compared_with_model"] = len(fitems)
 
     kinds = {}
     for c, o in zip(scases, sobs):
